@@ -71,3 +71,19 @@ Print Assumptions C06_backward_fresh_storage.
 Print Assumptions C06_mtl_fresh_storage.
 Print Assumptions C06_n_fold.
 Print Assumptions C06_refines_accumulator.
+
+(* ---- ALL history operations (added): backward, mtl_backward (accepted, or rejected for its
+   arguments), bare engine runs, zero_(), = None, in-place edits ---- *)
+From TJ.proofs Require Import C02Proofs C06FullHistProofs.
+Theorem C06_refines_accumulator_full : forall (P : prog R) hs s,
+  wf_prog P -> full_history_ok P s hs ->
+  forall t, grad_val (snd (hrun RN P s hs)) t
+            = abs_run_full P (grad_val s) hs (fst (hrun RN P s hs)) t.
+Proof. exact full_history_refines_accumulator. Qed.
+Print Assumptions C06_refines_accumulator_full.
+(* n identical accepted mtl_backward calls on a retained graph: the single-call update n times *)
+Theorem C06_mtl_n_fold : forall (P : prog R) A n losses features tasks shared k s s',
+  wf_prog P -> repeat_mtl P A n losses features tasks shared k s = Some s' ->
+  forall t, grad_val s' t = iter_update n (mtl_update P A losses features tasks shared) (grad_val s) t.
+Proof. exact mtl_n_fold. Qed.
+Print Assumptions C06_mtl_n_fold.
